@@ -205,6 +205,8 @@ def run(res, tier, seed, replay):
             for x in dn["cexports"]:
                 queries.add((n, x))
         f = i.split("\t")
+        if len(f) == 5:
+            queries |= {(n, x) for n in dn["cimports"] for x in names(f[4].split("|")[0])}
         if len(f) == 5 and "|" in f[3] and not f[3].startswith("NOENC"):
             bi, be = (names(x) for x in f[3].split("|"))
             wi, we = (names(x) for x in f[4].split("|"))
@@ -353,10 +355,12 @@ def run(res, tier, seed, replay):
                 # narrow signature 1: resolution reports a name as absent although a different version on the same
                 # track is present on the other side; the stand-alone check does not report the name in that class
                 kid = "targets-resolution-exact-names"
-            elif (cls == "INT" and rcp.get("local_world") and n not in wtable and n in wit_imports
-                  and not any(compat[(n, x)] for x in wtable)):
+            elif (cls == "INT" and rcp.get("local_world") and n not in wtable
+                  and not any(compat[(n, x)] for x in wtable)
+                  and any(x == n or compat[(n, x)] for x in wit_imports)):
                 # narrow signature 2: the world is declared in the document; wit-parser's reading of the same world
-                # imports the name (an interface used by an exported interface), wac's reading does not
+                # imports the name or a semver-compatible one (an interface used by an exported interface), wac's
+                # reading has no such import at all
                 kid = "targets-local-world-exported-uses"
             if kid:
                 known_hits.setdefault(kid, []).append(idx)
